@@ -613,6 +613,12 @@ pub fn evaluate(cfg: &RunCfg, rec: &RunRecord) -> (Vec<Finding>, Facts) {
                     Act::Pull(c.arg, Some((*begin, *announced)))
                 }
                 (k, Res::End) if k.is_pull() => Act::Pull(c.arg.max(1), None),
+                // With skip_to_end in the history a racing query is not required to be
+                // linearizable (an in-flight pull may or may not deliver, C06); queries are then
+                // judged by the clauses of C11 only (eval_queries).
+                (CallKind::Len, Res::Len(_)) | (CallKind::HasMore, Res::HasMore(_)) if has_skip => {
+                    continue
+                }
                 (CallKind::Len, Res::Len(l)) => Act::Len(*l),
                 (CallKind::HasMore, Res::HasMore(h)) => Act::Len(match h {
                     HasMoreObs::Yes(n) => Some(*n),
@@ -741,6 +747,18 @@ pub fn evaluate(cfg: &RunCfg, rec: &RunRecord) -> (Vec<Finding>, Facts) {
                 }
             }
         }
+    }
+
+    // ---------------------------------------------------------------- C15: scoped allocation ledger
+    if rec.leaked.0 > 0 && cfg.panic.is_none() {
+        out.push(f(
+            "C15",
+            "leak",
+            format!(
+                "{} heap block(s), {} bytes, allocated for the source or by the iterator machinery are still live after everything was dropped; (size, phase) of some: {:?}",
+                rec.leaked.0, rec.leaked.1, rec.leaked.2
+            ),
+        ));
     }
 
     // ---------------------------------------------------------------- C10: into_seq_iter
